@@ -22,7 +22,7 @@ TIMES = (0.1, -0.1, 1.0, -1.0, 7.0, -7.0)
 def configs(tier, seed):
     cfgs = zoo.system_configs(seed, tier, families=("euclidean", "gaussian", "constrained",
                                                     "gaussian_constrained"),
-                              all_convs=(tier == "thorough"))
+                              all_convs=(tier == "thorough"), derived_metrics=True)
     # h2 flows do not depend on the target: one target is enough in quick
     if tier == "quick":
         cfgs = [c for c in cfgs if c["target"] == "quartic"]
